@@ -6,7 +6,7 @@
 (* A file is a sequence of lines, each a record [k, a, b]:                 *)
 (*   k = "REQ"   a = method, b = URL                                       *)
 (*   k = "HDR"   a = key (case preserved), b = value                       *)
-(*   k = "BODY"  a = name of the body file ("@" + a), b = ""               *)
+(*   k = "BODY"  a = name of the body file ("@" + a), b = its content       *)
 (*   k = "COM"   a comment line (starts with #)                            *)
 (*   k = "BLANK" an empty line;  k = "WS"  a whitespace-only line          *)
 (* Comment lines are ignored wherever they appear.  After deleting them a  *)
@@ -26,7 +26,8 @@ Uncommented(lines) == SelectSeq(lines, NotComment)
 \*   st = "between"  (no open block; "sep" says whether a request line may follow directly)
 \*   st = "hdrs"     (inside a block, after the request line or a header)
 \* Returns [ok |-> BOOLEAN, blocks |-> sequence of [req, hdrs, body]]
-NoBody == "<default>"
+NoBody == [own |-> FALSE, content |-> ""]         \* the block has no body line
+OwnBody(ln) == [own |-> TRUE, content |-> ln.b]   \* ... or it has one, whatever the file holds (an empty file is a body)
 
 RECURSIVE RefParse(_, _, _, _, _)
 RefParse(ls, i, st, cur, acc) ==
@@ -40,7 +41,7 @@ RefParse(ls, i, st, cur, acc) ==
       ELSE \* "hdrs"
          IF IsBlank(ln) THEN RefParse(ls, i + 1, "between", cur, Append(acc, cur))
          ELSE IF ln.k = "HDR" THEN RefParse(ls, i + 1, "hdrs", [cur EXCEPT !.hdrs = Append(@, ln)], acc)
-         ELSE IF ln.k = "BODY" THEN RefParse(ls, i + 1, "between", cur, Append(acc, [cur EXCEPT !.body = ln.a]))
+         ELSE IF ln.k = "BODY" THEN RefParse(ls, i + 1, "between", cur, Append(acc, [cur EXCEPT !.body = OwnBody(ln)]))
          ELSE \* a request line directly after the previous block: only if that block had no header
               IF cur.hdrs = << >> THEN RefParse(ls, i + 1, "hdrs", [req |-> ln, hdrs |-> << >>, body |-> NoBody], Append(acc, cur))
               ELSE [ok |-> FALSE, blocks |-> acc]
@@ -67,13 +68,11 @@ DefaultValues(defs, key) ==
 MergedHeader(defs, hdrs) ==
     [key \in Keys(defs, hdrs) |-> DefaultValues(defs, key) \o OwnValues(hdrs, key)]
 
-BodyContent(name) == "body:" \o name        \* the harness writes this into the body file called name
-
 \* the target a block describes, given the command-line defaults (defBody = content of the default body, "" if none)
 TargetOf(blk, defs, defBody) ==
     [method |-> blk.req.a, url |-> blk.req.b,
      header |-> MergedHeader(defs, blk.hdrs),
-     body   |-> IF blk.body = NoBody THEN defBody ELSE BodyContent(blk.body)]
+     body   |-> IF blk.body.own THEN blk.body.content ELSE defBody]     \* the default body only when the target has none
 
 ExpectedTargets(lines, defs, defBody) ==
     LET bs == Parse(lines).blocks IN [i \in 1..Len(bs) |-> TargetOf(bs[i], defs, defBody)]
